@@ -111,6 +111,9 @@ class SlotGuard(object):
         self.log = None
         self.stale = []
         self.checked = 0
+        # worlds in which nothing moves during one inspect_frame call (single-threaded) compute
+        # the owned range once per call
+        self.fixed_range = None
         guard = self
 
         class _Arr(object):
@@ -124,7 +127,7 @@ class SlotGuard(object):
                 if fr is not None and isinstance(i, int) and 0 <= i < self.n:
                     from ..world import stackdepth
 
-                    rng = stackdepth.owned_slot_range(fr, guard.impl)
+                    rng = guard.fixed_range if guard.fixed_range is not None else stackdepth.owned_slot_range(fr, guard.impl)
                     if rng is not None:
                         guard.checked += 1
                         base, n = rng
